@@ -75,6 +75,23 @@ def parseItem (s : String) : Option SendItem :=
   | ["s", h] => (unhx h).map SendItem.secret
   | _ => none
 
+/-- `PutClassAdRawBytes`: count, every expression through `PutStringBytes` (same wire bytes as
+    `PutString`; frame boundaries differ for an expression that does not fit one frame), the two
+    type names through `PutString`. models: message.PutClassAdRawBytes -/
+def putItemsB (enc : Bool) : Bytes → List Bytes → Bytes × List TFrame
+  | buf, [] => (buf, [])
+  | buf, s :: rest =>
+    let r := putStringBytes enc buf s
+    let (b, fl) := putItemsB enc r.1 rest
+    (b, tag enc r.2 ++ fl)
+
+def putAdB (enc : Bool) (buf : Bytes) (exprs : List Bytes) (my tg : Bytes) : Bytes × List TFrame :=
+  let r0 := putInt buf exprs.length
+  let (b1, fl1) := putItemsB enc r0.1 exprs
+  let r2 := putString enc b1 my
+  let r3 := putString enc r2.1 tg
+  (r3.1, tag enc r0.2 ++ fl1 ++ tag enc r2.2 ++ tag enc r3.2)
+
 def step (st : St) (toks : List String) : St × String :=
   match toks with
   | ["expr", h] =>
@@ -120,6 +137,17 @@ def step (st : St) (toks : List String) : St × String :=
     match st.r.d.getRemaining with
     | .error e => (st, errS st e)
     | .ok (v, d) => ({ st with r := { st.r with d := d } }, s!"ok {showBytes v}")
+  | "putmsgb" :: enc :: _keyed :: my :: tg :: items =>
+    -- the raw-bytes sender: every item is a plain expression (`p:<hex>`)
+    match unhx my, unhx tg, items.mapM (fun it => match parseItem it with | some (.plain b) => some b | _ => none) with
+    | some my, some tg, some exprs =>
+      let e := enc == "1"
+      let (b1, fl1) := putAdB e [] exprs my tg
+      let r2 := putInt b1 77
+      let r3 := putString e r2.1 [116, 97, 105, 108]
+      let all := fl1 ++ tag e r2.2 ++ tag e r3.2 ++ [((r3.1, true), e)]
+      (st, "ok f=" ++ showTFrames all)
+    | _, _, _ => (st, "bad-op")
   | "putmsg" :: enc :: keyed :: my :: tg :: items =>
     match unhx my, unhx tg, items.mapM parseItem with
     | some my, some tg, some its =>
